@@ -120,29 +120,44 @@ def make_twin_file(src: Path) -> Path:
     return f
 
 
-def run_module(module: str, timeout_s: int, jobs: int, only=None, per_path=None, twin_timeout=20):
-    """Run every condition of harness module `module`. Returns list[Cond]."""
+def collect(module: str, timeout_s: int, only=None):
     file = HARNESS / f"{module}.py"
-    conds = [Cond(module, fn, ln, ds, file) for fn, ln, ds in conditions_in(file) if only is None or only(fn)]
-    twin_file = make_twin_file(file)
+    cs = [Cond(module, fn, ln, ds, file) for fn, ln, ds in conditions_in(file) if only is None or only(fn)]
+    for c in cs:
+        c.timeout = timeout_s
+    return cs
+
+
+def run_all(conds, jobs: int, per_path=None, twin_timeout=30):
+    """Run all conditions (possibly of several modules) in one pool, longest budgets first."""
+    twins = {}
+    for c in conds:
+        if c.module not in twins:
+            twins[c.module] = make_twin_file(c.file)
 
     def work(c: Cond):
-        out, dt = run_crosshair(c.file, c.line, timeout_s, per_path)
+        out, dt = run_crosshair(c.file, c.line, c.timeout, per_path)
         c.seconds = dt
         c.verdict, c.detail = parse_verdict(out)
         if c.verdict in ("cex", "exception"):
             c.replayed, c.replay_text = replay(c.module, call_of(c.detail))
         if c.verdict == "confirmed":
-            tout, tdt = run_crosshair(twin_file, c.line, twin_timeout, per_path)
+            tout, tdt = run_crosshair(twins[c.module], c.line, twin_timeout, per_path)
             tv, _ = parse_verdict(tout)
             c.twin = tv in ("cex", "exception")
             c.seconds += tdt
         return c
+    order = sorted(conds, key=lambda c: -c.timeout)
     with ThreadPoolExecutor(max_workers=max(1, jobs)) as ex:
-        list(ex.map(work, conds))
-    try:
-        twin_file.unlink()
-        twin_file.parent.rmdir()
-    except OSError:
-        pass
+        list(ex.map(work, order))
+    for f in twins.values():
+        try:
+            f.unlink()
+            f.parent.rmdir()
+        except OSError:
+            pass
     return conds
+
+
+def run_module(module: str, timeout_s: int, jobs: int, only=None, per_path=None, twin_timeout=30):
+    return run_all(collect(module, timeout_s, only), jobs, per_path, twin_timeout)
